@@ -129,7 +129,7 @@ def run(tier):
   ck = Check('C20', tier)
   ck.prove('props/C20.v', gen_targets=[], extra=['harness/RunC20.vo'])
   rng = random.Random(ck.seed * 41 + 20)
-  n = 1000 if tier == 'quick' else 50000
+  n = common.sz(tier, 1000, 50000)
   cases = [gen_entries(rng, malformed=(i % 4 == 3)) for i in range(n)]
   cases += [[], [('single', (2020, 2, 29))], [('range', (2019, 12, 30), (2020, 1, 2)), ('range', (2020, 1, 1), (2020, 1, 1))],
             [('range', (2100, 2, 28), (2100, 3, 1))], [('range', (2000, 2, 28), (2000, 3, 1))]]
